@@ -7,8 +7,12 @@ import (
 	"os"
 	"path/filepath"
 	"runtime"
+	"sort"
+	"strconv"
 	"strings"
 	"sync"
+
+	"github.com/lindb/roaring"
 
 	"github.com/lindb/lindb/index"
 	"github.com/lindb/lindb/series/field"
@@ -34,6 +38,7 @@ type idRun struct {
 	dir   string
 	mu    sync.Mutex
 	known map[idKey]bool
+	tvMax map[int]uint32 // tag key id -> greatest tag value id seen
 }
 
 func (r *idRun) note(k idKey) {
@@ -137,7 +142,127 @@ func (r *idRun) genTagValueID(t string, kid tag.KeyID, val string) (uint32, bool
 	}
 	r.ret(t, true, int(id))
 	r.note(k)
+	r.mu.Lock()
+	if r.tvMax == nil {
+		r.tvMax = map[int]uint32{}
+	}
+	if id > r.tvMax[int(kid)] {
+		r.tvMax[int(kid)] = id
+	}
+	r.mu.Unlock()
 	return id, true
+}
+
+// collect: the reverse lookup the group-by path uses (CollectTagValues: tag value ids -> names) for one tag key, asked
+// for every id up to two beyond the greatest one seen.  Every pair it returns must be a pair of the dictionary, and
+// every confirmed name whose id was asked for must be returned (only called while no create is in flight).
+func (r *idRun) collect(kid int) {
+	r.mu.Lock()
+	max, ok := r.tvMax[kid]
+	r.mu.Unlock()
+	if !ok {
+		return
+	}
+	bm := roaring.New()
+	asked := []int{}
+	for id := uint32(0); id <= max+2; id++ {
+		bm.Add(id)
+		asked = append(asked, int(id))
+	}
+	res := map[uint32]string{}
+	if err := r.db.CollectTagValues(tag.KeyID(kid), bm, res); err != nil {
+		r.rec.Emit("Error", trace.F{"op": "CollectTagValues", "err": err.Error()})
+		return
+	}
+	pairs := map[string]string{}
+	for id, name := range res {
+		pairs[strconv.Itoa(int(id))] = name
+	}
+	r.rec.Emit("Collect", trace.F{"scope": kid, "asked": asked, "pairs": pairs})
+}
+
+func (r *idRun) collectAll() {
+	r.mu.Lock()
+	kids := make([]int, 0, len(r.tvMax))
+	for k := range r.tvMax {
+		kids = append(kids, k)
+	}
+	r.mu.Unlock()
+	sort.Ints(kids)
+	for _, k := range kids {
+		r.collect(k)
+	}
+}
+
+// idReverse: names of several tag keys are created and flushed; then, key by key: a persisted name of key A is looked up
+// (its dictionary bucket is loaded and cached), the reverse lookup of A runs, persisted names of the OTHER keys are
+// looked up (their buckets are loaded now), and every name of A is asked for again through get-or-create: it must
+// still have its id.  Between rounds: more names, flush, sometimes reopen.
+func idReverse(rec *trace.Recorder, dir string, rng *rand.Rand, h int) {
+	rec.Reset(trace.F{"mode": "reverse", "h": h})
+	db, err := index.NewMetricMetaDatabase("db", dir)
+	if err != nil {
+		rec.Emit("Error", trace.F{"op": "open", "err": err.Error()})
+		return
+	}
+	run := &idRun{rec: rec, db: db, dir: dir, known: map[idKey]bool{}}
+	defer func() { _ = run.db.Close() }()
+	type tk struct {
+		kid  tag.KeyID
+		vals []string
+	}
+	var keys []*tk
+	mid, ok := run.genMetric("main", "cpu")
+	if !ok {
+		return
+	}
+	for _, kn := range idKeyPool {
+		kid, ok := run.genTagKey("main", mid, kn)
+		if !ok {
+			return
+		}
+		keys = append(keys, &tk{kid: kid})
+	}
+	nval := 0
+	for round := 0; round < 2+rng.Intn(2); round++ {
+		for _, k := range keys {
+			for i := 0; i < 2+rng.Intn(4); i++ {
+				nval++
+				v := fmt.Sprintf("v%d-%s", nval, idValPool[rng.Intn(len(idValPool))])
+				if _, ok := run.genTagValueID("main", k.kid, v); ok {
+					k.vals = append(k.vals, v)
+				}
+			}
+		}
+		run.flush()
+		if rng.Intn(3) == 0 {
+			_ = run.db.Close()
+			ndb, err := index.NewMetricMetaDatabase("db", dir)
+			if err != nil {
+				rec.Emit("Error", trace.F{"op": "reopen", "err": err.Error()})
+				return
+			}
+			run.db = ndb
+			rec.Emit("Reopen", trace.F{"how": "close"})
+		}
+		order := rng.Perm(len(keys))
+		for _, ai := range order {
+			a := keys[ai]
+			run.genTagValueID("main", a.kid, a.vals[rng.Intn(len(a.vals))]) // loads (and caches) the bucket of A
+			run.collect(int(a.kid))
+			for _, bi := range rng.Perm(len(keys)) {
+				if bi != ai {
+					b := keys[bi]
+					run.genTagValueID("main", b.kid, b.vals[rng.Intn(len(b.vals))])
+				}
+			}
+			for _, v := range a.vals {
+				run.genTagValueID("main", a.kid, v)
+			}
+			run.collect(int(a.kid))
+		}
+		run.collectAll()
+	}
 }
 
 func (r *idRun) genField(t string, mid metric.ID, name string) {
@@ -458,6 +583,10 @@ func idSequential(rec *trace.Recorder, dir string, rng *rand.Rand, h int, images
 			run.db = ndb
 			rec.Emit("Reopen", trace.F{"how": "close"})
 			run.lookupAll("main")
+			run.collectAll()
+		}
+		if rng.Intn(2) == 0 {
+			run.collectAll()
 		}
 	}
 	_ = run.db.Close()
@@ -495,6 +624,7 @@ func iddictMain(args []string) int {
 	ni := fs.Int("images", 3, "sequential histories with crash images inside the metadata flush")
 	ng := fs.Int("gated", 40, "gated scenarios (a goroutine parked inside get-or-create)")
 	nl := fs.Int("loop", 0, "index-loop histories (shard index event loop: rows / flush requests under gated schedules, crash, reopen)")
+	nrev := fs.Int("reverse", 0, "reverse-lookup histories (CollectTagValues between lookups of several flushed tag keys)")
 	ncp := fs.Int("compact", 0, "compaction histories (rounds of create + flush, level-0 compaction of every kv family, re-ask, reopen)")
 	scratch := fs.String("scratch", "", "scratch directory")
 	_ = fs.Parse(args)
@@ -528,6 +658,12 @@ func iddictMain(args []string) int {
 		d := filepath.Join(*scratch, fmt.Sprintf("s%d", h), "meta")
 		_ = os.MkdirAll(filepath.Dir(d), 0o755)
 		idSequential(rec, d, rand.New(rand.NewSource(rng.Int63())), h, h < *ni, &nimg)
+		os.RemoveAll(filepath.Dir(d))
+	}
+	for h := 0; h < *nrev; h++ {
+		d := filepath.Join(*scratch, fmt.Sprintf("v%d", h), "meta")
+		_ = os.MkdirAll(filepath.Dir(d), 0o755)
+		idReverse(rec, d, rand.New(rand.NewSource(*seed*104729+int64(h))), h)
 		os.RemoveAll(filepath.Dir(d))
 	}
 	// compaction histories (after the sequential ones, before the index-loop ones)
